@@ -22,3 +22,12 @@ if "No error has been found" not in log or "FAIL" in log:
     print("SELFTEST FAILED (Elementary)\n" + log[-2000:])
     sys.exit(1)
 print("selftest ok: enclosures of exp, expm1, sin, cos, sqrt, pi, ln 2, ln 10 contain the reference literals and are tight")
+
+# negative control of leg A: the PINNED way of splitting x = y/2 + z in exp (y = round(2*hi)) must violate the
+# |z.hi| <= 1/4 assertion somewhere in a small format (this is defect 433c96f, found by modelling)
+rc, log, dt = check.tlc(["-workers", "1", "-config", "MC_P4_expflow_old.cfg", "MC_Small.tla"],
+                        {"XMX": "3g", "VERIF_SLICE": "0", "VERIF_NSLICES": "4"}, os.path.join(wd, "md_neg"), 600)
+if "Invariant NoBad is violated" not in log:
+    print("SELFTEST FAILED: the small-format model no longer finds the pinned exp reduction defect\n" + log[-1500:])
+    sys.exit(1)
+print("selftest ok: MC_Small finds the pinned exp-reduction assertion failure (negative control)")
